@@ -360,10 +360,12 @@ theorem unpackResource_wf {msg : Bytes} (hb : BytesWF msg) {off : Nat} {r : Reso
               split at hh
               · simp at hh
               · rename_i len o6 h5
-                simp at hh
-                rcases hh with ⟨rfl, rfl⟩
-                have := unpackBody_wf hb (u16At_lt hb h2) hbody
-                exact ⟨⟨unpackName_canonical h1, u16At_lt hb h3, u32At_lt hb h4, this.1⟩, this.2⟩
+                split at hh
+                · simp at hh
+                · simp at hh
+                  rcases hh with ⟨rfl, rfl⟩
+                  have := unpackBody_wf hb (u16At_lt hb h2) hbody
+                  exact ⟨⟨unpackName_canonical h1, u16At_lt hb h3, u32At_lt hb h4, this.1⟩, this.2⟩
 
 theorem unpackQuestions_wf {msg : Bytes} (hb : BytesWF msg) : ∀ (k off : Nat) (qs : List Question) (o : Nat),
     unpackQuestions msg k off = .ok (qs, o) → ∀ q ∈ qs, WFQuestion q := by
